@@ -674,6 +674,15 @@ func (c *Compiler) ExpandModules() (err error) {
 		}
 	}
 
+	// Check for typedefs defined in terms of themselves before any type
+	// is built
+	for _, module := range c.modules {
+		c.validateTypedefsWalk(module.GetModule())
+		for _, sm := range module.GetSubmodules() {
+			c.validateTypedefsWalk(sm)
+		}
+	}
+
 	// Apply uses and augments
 	for _, name := range c.modnames {
 		module, ok := c.modules[name]
@@ -697,6 +706,51 @@ func (c *Compiler) ExpandModules() (err error) {
 	}
 
 	return nil
+}
+
+// validateTypedefsWalk checks every typedef at or below n for a cycle.
+func (c *Compiler) validateTypedefsWalk(n parse.Node) {
+	for _, ch := range n.Children() {
+		if ch.Type() == parse.NodeTypedef {
+			c.checkTypedefCycle(
+				ch.ChildByType(parse.NodeTyp), map[parse.Node]bool{ch: true})
+		}
+		c.validateTypedefsWalk(ch)
+	}
+}
+
+// checkTypedefCycle follows a type statement (and the member types of a
+// union) through the typedefs it names.  chain holds the typedefs we are
+// currently inside: reaching one of them again is a cycle, which would
+// otherwise make BuildType recurse until the stack overflows.
+func (c *Compiler) checkTypedefCycle(typ parse.Node, chain map[parse.Node]bool) {
+	if typ == nil {
+		return
+	}
+	var refType parse.Node
+	var ok bool
+	tname := typ.ArgIdRef()
+	if tname.Space != "" {
+		refMod, err := typ.GetModuleByPrefix(
+			tname.Space, c.modules, c.skipUnknown)
+		if err == nil && refMod != nil {
+			refType, ok = refMod.LookupType(tname.Local)
+		}
+	} else {
+		refType, ok = typ.LookupType(tname.Local)
+	}
+	if ok && refType != nil {
+		if chain[refType] {
+			c.error(typ, fmt.Errorf("typedef cycle detected: %s",
+				typ.Argument().String()))
+		}
+		chain[refType] = true
+		c.checkTypedefCycle(refType.ChildByType(parse.NodeTyp), chain)
+		delete(chain, refType)
+	}
+	for _, member := range typ.ChildrenByType(parse.NodeTyp) {
+		c.checkTypedefCycle(member, chain)
+	}
 }
 
 func (c *Compiler) BuildModules() (modules map[string]schema.Model, err error) {
